@@ -23,6 +23,7 @@ import (
 
 	"github.com/olric-data/olric/internal/kvstore"
 	"github.com/olric-data/olric/internal/kvstore/entry"
+	"github.com/olric-data/olric/internal/kvstore/table"
 	"github.com/olric-data/olric/pkg/storage"
 )
 
@@ -301,6 +302,25 @@ func (w *c11World) apply(o c11Op) *c11Viol {
 
 // compare checks the complete observable state of one engine against its model.
 func c11Compare(name string, eng storage.Engine, model map[uint64]c11Ent) *c11Viol {
+	// structure: the coefficient index refers to exactly the tables of the store that are in use (not recycled); a
+	// table that is only reachable through the index is memory the statistics do not see
+	if kv, ok := eng.(*kvstore.KVStore); ok {
+		inUse := map[uint64]bool{}
+		for _, t := range kv.VerifTables() {
+			if t.State != table.RecycledState {
+				inUse[t.Coefficient] = true
+			}
+		}
+		cfs := kv.VerifCoefficients()
+		for _, cf := range cfs {
+			if !inUse[cf] {
+				return &c11Viol{"index-refers-to-dropped-table", fmt.Sprintf("%s: the coefficient index has an entry %d that belongs to no table in use (index %d entries, %d tables in use): the table is unreachable for Stats and compaction but still referenced", name, cf, len(cfs), len(inUse))}
+			}
+		}
+		if len(cfs) != len(inUse) {
+			return &c11Viol{"index-misses-table", fmt.Sprintf("%s: %d tables in use but %d entries in the coefficient index", name, len(inUse), len(cfs))}
+		}
+	}
 	for i := 0; i <= c11NumKeys; i++ { // one extra, never written key
 		hk := c11HKey(i)
 		want, present := model[hk]
